@@ -544,4 +544,126 @@ theorem owner_final (k : Kind) (ldc lrack : Nat) (sh nl ps : Bool) (sess : Optio
     (fun x => by simp [known, Pol.new, TA.new])
   exact this
 
+/-! ### the token-aware policy's OWN list (`t.hosts`) per address
+
+`t.hosts` is one list, changed by `AddHost` / `RemoveHost` only: the identity of a host object there is its connect
+address alone. -/
+
+/-- one call about an object `h` with the address: `AddHost` puts `h` there if the address is free, `RemoveHost` frees
+the address, `HostUp` / `HostDown` do not touch the list -/
+def taOwnerStep (o : Option Host) (e : Ev) (h : Host) : Option Host :=
+  match e with
+  | .add => (match o with | none => some h | some x => some x)
+  | .remove => none
+  | _ => o
+
+/-- the object `t.hosts` holds for address `a`, by the history alone -/
+def taOwnerFrom (o0 : Option Host) (evs : List (Ev × Host)) (a : Nat) : Option Host :=
+  evs.foldl (fun o e => if e.2.addr = a then taOwnerStep o e.1 e.2 else o) o0
+
+def taOwnerOf (evs : List (Ev × Host)) (a : Nat) : Option Host := taOwnerFrom none evs a
+
+theorem taOwner_run (ops : List TAOp) :
+    ∀ (t : TA) (O : Nat → Option Host),
+    AddrNodup t.hosts → (∀ a z, O a = some z → z.addr = a) → (∀ x, x ∈ t.hosts ↔ O x.addr = some x) →
+    AddrNodup (ops.foldl TA.apply t).hosts ∧
+      ∀ x, x ∈ (ops.foldl TA.apply t).hosts ↔ taOwnerFrom (O x.addr) (evsOf ops) x.addr = some x := by
+  induction ops with
+  | nil => intro t O hn _ hs; exact ⟨hn, hs⟩
+  | cons o r ih =>
+    intro t O hn hO hs
+    rw [List.foldl_cons]
+    have keep : (t.apply o).hosts = t.hosts →
+        (o.ev = none ∨ (∃ h, o.ev = some (.hup, h)) ∨ (∃ h, o.ev = some (.hdown, h))) →
+        AddrNodup (r.foldl TA.apply (t.apply o)).hosts ∧
+        ∀ x, x ∈ (r.foldl TA.apply (t.apply o)).hosts ↔ taOwnerFrom (O x.addr) (evsOf (o :: r)) x.addr = some x := by
+      intro e1 e2
+      have hev : evsOf (o :: r) = (match o.ev with | some e => [e] | none => []) ++ evsOf r := by
+        unfold evsOf
+        rw [List.filterMap_cons]
+        cases o.ev <;> rfl
+      have base := ih (t.apply o) O (by rw [e1]; exact hn) hO (by rw [e1]; exact hs)
+      refine ⟨base.1, ?_⟩
+      intro x
+      rw [base.2 x, hev]
+      rcases e2 with e2 | ⟨h, e2⟩ | ⟨h, e2⟩ <;> rw [e2]
+      · rfl
+      · show _ ↔ taOwnerFrom (if h.addr = x.addr then taOwnerStep (O x.addr) .hup h else O x.addr) (evsOf r) x.addr = some x
+        have : (if h.addr = x.addr then taOwnerStep (O x.addr) .hup h else O x.addr) = O x.addr := by split <;> rfl
+        rw [this]
+      · show _ ↔ taOwnerFrom (if h.addr = x.addr then taOwnerStep (O x.addr) .hdown h else O x.addr) (evsOf r) x.addr = some x
+        have : (if h.addr = x.addr then taOwnerStep (O x.addr) .hdown h else O x.addr) = O x.addr := by split <;> rfl
+        rw [this]
+    cases o with
+    | add h =>
+      have eh : (t.apply (.add h)).hosts = (cowAdd t.hosts h).1 := apply_hosts t (.add h)
+      refine ih (t.apply (.add h)) (fun a => if h.addr = a then taOwnerStep (O a) .add h else O a)
+        (by rw [eh]; exact cowAdd_inv _ _ hn) ?_ ?_
+      · intro a z hz
+        split at hz
+        · rename_i hk
+          cases hOa : O a <;> simp [taOwnerStep, hOa] at hz
+          · subst hz; exact hk
+          · subst hz; exact hO a _ hOa
+        · exact hO a z hz
+      · intro x
+        rw [eh, mem_cowAdd]
+        by_cases hk : h.addr = x.addr
+        · rw [if_pos hk]
+          cases hOx : O x.addr with
+          | none =>
+            simp only [taOwnerStep, Option.some.injEq]
+            constructor
+            · rintro (h1 | ⟨h1, _⟩)
+              · rw [hs x, hOx] at h1; cases h1
+              · exact h1.symm
+            · intro h1
+              refine Or.inr ⟨h1.symm, ?_⟩
+              intro y hy hya
+              rw [hs y, hya, hk, hOx] at hy
+              cases hy
+          | some z =>
+            simp only [taOwnerStep, Option.some.injEq]
+            constructor
+            · rintro (h1 | ⟨h1, h2⟩)
+              · rw [hs x, hOx] at h1; exact Option.some.inj h1
+              · exfalso
+                have hza : z.addr = x.addr := hO _ z hOx
+                have hzm : z ∈ t.hosts := by rw [hs z, hza]; exact hOx
+                exact h2 z hzm (by rw [hza, hk])
+            · intro h1
+              left
+              rw [hs x, hOx, h1]
+        · rw [if_neg hk, hs x]
+          constructor
+          · rintro (h1 | ⟨h1, _⟩)
+            · exact h1
+            · subst h1; exact absurd rfl hk
+          · exact Or.inl
+    | remove h =>
+      have eh : (t.apply (.remove h)).hosts = (cowRemove t.hosts h.addr).1 := apply_hosts t (.remove h)
+      refine ih (t.apply (.remove h)) (fun a => if h.addr = a then taOwnerStep (O a) .remove h else O a)
+        (by rw [eh]; exact cowRemove_inv _ _ hn) ?_ ?_
+      · intro a z hz
+        split at hz
+        · simp [taOwnerStep] at hz
+        · exact hO a z hz
+      · intro x
+        rw [eh, mem_cowRemove]
+        by_cases hk : h.addr = x.addr
+        · rw [if_pos hk]
+          simp only [taOwnerStep]
+          constructor
+          · rintro ⟨_, h2⟩; exact absurd hk.symm h2
+          · intro h1; cases h1
+        · rw [if_neg hk, hs x]
+          exact ⟨fun h1 => h1.1, fun h1 => ⟨h1, fun e' => hk e'.symm⟩⟩
+    | hostUp h => exact keep (apply_hosts t (.hostUp h)) (Or.inr (Or.inl ⟨h, rfl⟩))
+    | hostDown h => exact keep (apply_hosts t (.hostDown h)) (Or.inr (Or.inr ⟨h, rfl⟩))
+    | setReplicas ks tab => exact keep (apply_hosts t (.setReplicas ks tab)) (Or.inl rfl)
+    | keyspaceChanged ks => exact keep (apply_hosts t (.keyspaceChanged ks)) (Or.inl rfl)
+    | setMeta ks v => exact keep (apply_hosts t (.setMeta ks v)) (Or.inl rfl)
+    | setCtr n => exact keep (apply_hosts t (.setCtr n)) (Or.inl rfl)
+    | pick up σ rk limit => exact keep (apply_hosts t (.pick up σ rk limit)) (Or.inl rfl)
+
 end C11
